@@ -17,6 +17,29 @@ def ssimp(t):
     return r
 
 
+def _count_quant(t, cache):
+    tid = t.get_id()
+    if tid in cache:
+        return cache[tid]
+    if z3.is_quantifier(t):
+        r = 1 + _count_quant(t.body(), cache)
+    elif z3.is_app(t):
+        r = sum(_count_quant(c, cache) for c in t.children())
+    else:
+        r = 0
+    cache[tid] = r
+    return r
+
+
+def mkquant(universal, var, body):
+    """quantify `var` (a constant) in body with a canonical bound-variable name, so that structurally equal
+    quantified terms print (and hash-cons) identically"""
+    n = _count_quant(body, {})
+    canon = z3.Const(f'q!{n}', var.sort())
+    body = z3.substitute(body, (var, canon))
+    return z3.ForAll([canon], body) if universal else z3.Exists([canon], body)
+
+
 def _is_literal(t):
     if z3.is_int_value(t) or z3.is_rational_value(t) or z3.is_true(t) or z3.is_false(t) or z3.is_string_value(t):
         return True
